@@ -292,7 +292,7 @@ func (a *apiWorld) genValid(t *rapid.T) httpReq {
 		default:
 			body["script"] = map[string]any{"plain": "vars {\n number $n\n string $s\n asset $a\n portion $p\n}\nsend [$a 30] (\n source = @world\n destination = {\n  $p to @u:1\n  remaining to @u:2\n }\n)\nset_tx_meta(\"n\", $n)\nset_tx_meta(\"s\", $s)",
 				"vars": map[string]any{"n": rapid.SampledFrom([]any{json.Number("3"), "3", "null", "-1", "1e3", ""}).Draw(t, "numberVar"), "s": rapid.SampledFrom([]string{"x", "", "null"}).Draw(t, "stringVar"),
-					"a": rapid.SampledFrom([]string{"EUR", "USD/2", "null", "eur"}).Draw(t, "assetVar"), "p": rapid.SampledFrom([]string{"1/3", "50%", "0", "1", "2/1", "null", "x"}).Draw(t, "portionVar")}}
+					"a": rapid.SampledFrom([]string{"EUR", "USD/2", "null", "eur"}).Draw(t, "assetVar"), "p": rapid.SampledFrom([]string{"1/3", "50%", "0", "1", "2/1", "null", "x", "1/0", "0/0", "7 / 000", "101%", "-1/2", "1/-2", "0.5", "%"}).Draw(t, "portionVar")}}
 		}
 		if rapid.IntRange(0, 2).Draw(t, "withMeta") == 0 {
 			body["metadata"] = meta()
@@ -1212,6 +1212,9 @@ func c38Pinned() string {
 		// a query template run with a variable the template does not declare (ignored) and with a wrongly typed declared one
 		{httpReq{Route: "v2 POST /queries/{id}/run", Method: "POST", Path: "/v2/l1/queries/byAccount/run", Query: q("schemaVersion", "v1"), Body: []byte(`{"vars":{"acc":"bank","adress":null}}`)}, 2},
 		{httpReq{Route: "v2 POST /queries/{id}/run", Method: "POST", Path: "/v2/l1/queries/rich/run", Query: q("schemaVersion", "v1"), Body: []byte(`{"vars":{"min":{"a":1}}}`)}, 4},
+		// a portion given as a fraction with a zero denominator, as a variable and as a literal
+		{httpReq{Route: "v2 POST /transactions", Method: "POST", Path: "/v2/l1/transactions", Write: true, Body: []byte(`{"script":{"plain":"vars {\n portion $p\n}\nsend [USD/2 3] (\n source = @world\n destination = {\n  $p to @u:1\n  remaining to @u:2\n }\n)","vars":{"p":"1/0"}}}`)}, 4},
+		{httpReq{Route: "v1 POST /transactions", Method: "POST", Path: "/l1/transactions", Write: true, Body: []byte(`{"script":{"plain":"send [USD/2 3] (\n source = @world\n destination = {\n  1/0 to @u:1\n  remaining to @u:2\n }\n)"}}`)}, 4},
 		{httpReq{Route: "v1 POST /transactions/{id}/metadata", Method: "POST", Path: "/l1/transactions/1/metadata", Write: true, Headers: map[string]string{"Idempotency-Key": "pin1"}, Body: []byte(`{"a":"b"}`)}, 2},
 		{httpReq{Route: "v1 POST /transactions/{id}/revert", Method: "POST", Path: "/l1/transactions/1/revert", Write: true, Headers: map[string]string{"Idempotency-Key": "pin1"}}, 4},
 	}
@@ -1253,7 +1256,7 @@ func TestC38(t *testing.T) {
 	if problem := c38Pinned(); problem != "" && !stats.SkipPinned() {
 		t.Fatalf("VIOLATION[C38] (pinned request): %s", problem)
 	}
-	st.Set("pinned_requests", 39)
+	st.Set("pinned_requests", 41)
 	if known.IsOpen(FindingAPIBalanceNoAsset) && reproduceAPIBalanceNoAsset() {
 		fmt.Println(known.Line(FindingAPIBalanceNoAsset))
 		st.Known(known.Line(FindingAPIBalanceNoAsset))
